@@ -199,6 +199,10 @@ class SigmaFilter(SigmaRuleBase):
         if isinstance(rule, SigmaCorrelationRule):
             return False
 
+        # A filter that was loaded with errors (error collection) is not applied
+        if self.errors:
+            return False
+
         # Check if logsource matches
         if rule.logsource not in self.logsource:
             return False
